@@ -150,6 +150,31 @@ def run(ctx):
         metas[r] = (insts, ["switch:1x2"])
         nsweep += 1
     ctx.coverage["definer_opcodes_swept"] = nsweep
+    # ids from the whole 32-bit range: the width of a literal depends on the declarations, never on how large an id is
+    for big in (0x3ffffe, 0x3fffff, 0x400000, 0xffffff, 0x1000000, 0x7fffffff, 0x80000000, 0xfffffffe, 0xffffffff):
+        for w, nw in ((64, 2), (32, 1), (16, 1)):
+            tdecl = instgen.Inst(g.opv["TypeInt"], "TypeInt", None, big, [instgen.Op("w", L32, w), instgen.Op("w", L32, 1)])
+            fdecl = instgen.Inst(g.opv["TypeFloat"], "TypeFloat", None, big, [instgen.Op("w", L32, w)])
+            val = instgen.Inst(g.opv["Undef"], "Undef", big, big - 1, [])
+            for decl in (tdecl, fdecl):
+                insts = [decl, instgen.Inst(g.opv["Constant"], "Constant", big, 7, g.literal(nw == 2)), val,
+                         instgen.Inst(g.opv["Switch"], "Switch", None, None,
+                                      [instgen.Op("w", g.vix["IdRef"], big - 1), instgen.Op("w", g.vix["IdRef"], 9)] + g.literal(nw == 2) + [instgen.Op("w", g.vix["IdRef"], 9)])]
+                words = instgen.header()
+                for i in insts:
+                    words += i.words()
+                r = "parse " + instgen.to_bytes(words).hex()
+                reqs.append(r)
+                metas[r] = (insts, [f"const:{nw}", f"switch:1x{nw}"])
+        # an unsupported width under a large id is still reported as unsupported
+        insts = [instgen.Inst(g.opv["TypeInt"], "TypeInt", None, big, [instgen.Op("w", L32, 48), instgen.Op("w", L32, 0)]),
+                 instgen.Inst(g.opv["Constant"], "Constant", big, 7, g.literal(False))]
+        words = instgen.header()
+        for i in insts:
+            words += i.words()
+        r = "parse " + instgen.to_bytes(words).hex()
+        reqs.append(r)
+        metas[r] = (insts, ["unsupported"])
     # a parse that is *aborted* (parse error, consumer stop, consumer error) after it has seen type declarations, followed by a parse
     # that uses the same ids without declaring them: one word per literal, whatever the earlier parse had declared
     for w in (64, 128, 8):
